@@ -53,16 +53,37 @@ def consistent_guard(value_expr_ok):
     return g
 
 
-def immut_guard(e, outcome, ce):
-    e0 = E.strip_casts(e)
-    if e0[0] == "discr":
-        sc = e0[1]
-        if E.is_call(sc, "Try::branch") and sc[2] and E.is_call(E.strip_casts(sc[2][0]), "check_immutability") and not sc[4]:
-            return outcome == 0
-    # not enabled: immutability does not apply
-    if e0[0] in ("param", "local", "call") and E.mentions_field(e0, "enabled"):
-        return outcome == "false"
-    return False
+def _owner(e, field):
+    """the expression of the value whose `field` e reads (None when e is not such a read)"""
+    e = E.strip_casts(e)
+    if e[0] in ("param", "local") and e[2] and e[2][-1] == field:
+        return e[:2] + (e[2][:-1],)
+    if e[0] == "call" and e[4] and e[4][-1] == field:
+        return e[:4] + (e[4][:-1],)
+    return None
+
+
+def make_immut_guard(owner=None):
+    """owner: expression of the entity whose QoS is stored; the `enabled` flag that exempts from the immutability test must be
+    that entity's own flag (a writer enabled on its own under a disabled publisher is an enabled entity)"""
+    def immut_guard(e, outcome, ce):
+        e0 = E.strip_casts(e)
+        if e0[0] == "discr":
+            sc = e0[1]
+            if E.is_call(sc, "Try::branch") and sc[2] and E.is_call(E.strip_casts(sc[2][0]), "check_immutability") and not sc[4]:
+                return outcome == 0
+        # not enabled: immutability does not apply
+        if e0[0] in ("param", "local", "call") and E.mentions_field(e0, "enabled"):
+            if owner is not None:
+                o2 = _owner(e0, "enabled")
+                if o2 is not None and not E.same(o2, owner):
+                    return False
+            return outcome == "false"
+        return False
+    return immut_guard
+
+
+immut_guard = make_immut_guard()
 
 
 def run(ctx, rep):
@@ -80,12 +101,18 @@ def run(ctx, rep):
         m = fc.mir
         add = adder(rep, b)
         events = []   # (bb, line, type, value expr, what)
+        owners = {}   # bb of a plain store -> expression of the entity written
         for bb, i, s in m.stmts():
             if s.kind == "assign" and s.lhs.proj and s.lhs.proj[-1][0] == "field":
                 f = s.lhs.proj[-1][4]
                 ty = short_ty(s.lhs.proj[-1][5])
                 if (f == "qos" or (f.startswith("default_") and f.endswith("_qos"))) and ty in cons:
                     events.append((bb, s.line, ty, fc.rv_expr(s), "store into ." + f))
+                    try:
+                        pl = Place([s.lhs.local, [list(x) for x in s.lhs.proj[:-1]]])
+                        owners[bb] = fc.eb.place(pl, 0)
+                    except Exception:
+                        pass
         # a QoS field overwritten through mem::replace / mem::swap is a store as well
         for bb, t in m.calls():
             if t.callee.indirect or t.callee.method() not in ("replace", "swap") or "mem" not in (t.callee.best_name() or "") or not t.args:
@@ -126,7 +153,7 @@ def run(ctx, rep):
             add("R37a", "%s (%s) only after is_consistent() succeeded" % (what, ty), bb not in found or from_default,
                 "an inconsistent %s is accepted: %s is reachable without is_consistent() == Ok" % (ty, what), line)
             if nm.startswith("set_") and not nm.startswith("set_default") and ty in imm:
-                found2 = fc.reach_avoiding([bb], immut_guard)
+                found2 = fc.reach_avoiding([bb], make_immut_guard(owners.get(bb)))
                 add("R37a", "%s (%s) only after check_immutability() on an enabled entity" % (what, ty), bb not in found2,
                     "an immutable policy can be changed on an enabled entity", line)
             if nm in ANNOUNCE:
